@@ -68,6 +68,10 @@ class Event:
         return f"Event({self.kind}, {d})"
 
 
+# qualified names of every repository function the interpreter entered in this process (reported as evidence)
+INTERPRETED: set = set()
+
+
 class Run:
     """one path"""
 
@@ -398,6 +402,13 @@ class Interp:
             return None
         types = (Str, IntV, BoolV, DictV, ListV, TupleV, AbsList, Obj, EnumV, ClassV)
         if isinstance(a, Unknown) or isinstance(b, Unknown) or isinstance(a, SymBool) or isinstance(b, SymBool):
+            if isinstance(a, Unknown) and isinstance(b, Unknown) and a.meta.get("op") == "len" and b.meta.get("op") == "len":
+                # the lengths of a list and of an unfiltered element-wise image of it
+                la, lb = a.meta["args"][0], b.meta["args"][0]
+                keys = ("filters", "sliced", "appended", "mixed", "flattened_groups", "perm", "perm_outer", "perm_r")
+                if isinstance(la, AbsList) and isinstance(lb, AbsList) and la.src == lb.src and \
+                        all(la.flags.get(k) == lb.flags.get(k) for k in keys):
+                    return True
             if (a is NONE or b is NONE):
                 u = a if b is NONE else b
                 if isinstance(u, Unknown) and u.meta.get("not_none"):
@@ -498,20 +509,16 @@ class Interp:
                                              f.frame.def_cls))
         if isinstance(f, Unknown):
             recv = f.meta.get("recv")
-            if isinstance(recv, Unknown) and "template_groups" in recv.meta and f.meta.get("attr") in ("group", "groups") and not kwargs:
-                tg = recv.meta["template_groups"]
-                if f.meta.get("attr") == "groups" and not args:
-                    return TupleV(list(tg[1:]))
-                if f.meta.get("attr") == "group" and len(args) <= 1 and all(isinstance(a, IntV) for a in args):
-                    k = args[0].v if args else 0
-                    if 0 <= k < len(tg):
-                        return tg[k]
-                    self.raise_exc("IndexError", [Str.lit("no such group")], node, fr)
-            if isinstance(recv, Unknown) and "concrete_groups" in recv.meta and f.meta.get("attr") == "group" and \
-                    len(args) == 1 and isinstance(args[0], IntV) and not kwargs and \
-                    0 <= args[0].v < len(recv.meta["concrete_groups"]):
-                g = recv.meta["concrete_groups"][args[0].v]
-                return NONE if g is None else Str.lit(g)
+            if isinstance(recv, Unknown) and "template_groups" in recv.meta and f.meta.get("attr") == "groups" and not kwargs and not args:
+                return TupleV(list(recv.meta["template_groups"][1:]))
+            if isinstance(recv, Unknown) and f.meta.get("attr") == "group" and not kwargs and \
+                    all(isinstance(a, IntV) for a in args):
+                if len(args) > 1:
+                    # m.group(a, b, ...): the tuple of the single groups
+                    return TupleV([self.call_value(f, [a], {}, node, fr) for a in args])
+                g = self.match_group(recv, args[0].v if args else 0, node, fr)
+                if g is not None:
+                    return g
             if isinstance(recv, Unknown) and "pattern_text" in recv.meta and f.meta.get("attr") == "groups" and not args:
                 from . import rx as _rx
                 try:
@@ -523,9 +530,6 @@ class Interp:
                     return TupleV([Unknown(self.run.new_tag(f"{recv.tag}.group({i})"),
                                            {"call_of": gf, "args": [IntV(i)], "kwargs": {},
                                             "expr": f"{self.expr_of(recv)}.group({i})"}) for i in range(1, n + 1)])
-            if isinstance(recv, Unknown) and "group0" in recv.meta and f.meta.get("attr") == "group" and \
-                    (not args or (len(args) == 1 and isinstance(args[0], IntV) and args[0].v == 0)) and not kwargs:
-                return recv.meta["group0"]
             if isinstance(recv, Unknown) and f.meta.get("attr") == "split" and len(args) == 1 and not kwargs and \
                     isinstance(recv.meta.get("call_of"), Unknown) and recv.meta["call_of"].meta.get("attr") == "group" and \
                     isinstance(args[0], Str) and args[0].is_concrete():
@@ -549,6 +553,37 @@ class Interp:
             return Unknown(self.run.new_tag(tag), {"call_of": f, "args": args, "kwargs": kwargs,
                                                    "expr": f"{self.expr_of(f)}({argtxt})"})
         raise self.unsupported(f"call of {f!r}", node, fr)
+
+    def match_group(self, recv: "Unknown", k: int, node, fr) -> Optional[Value]:
+        """group k of a modelled match object (`m.group(k)`, `m[k]`), or None when the model cannot say"""
+        meta = recv.meta
+        if "template_groups" in meta:
+            tg = meta["template_groups"]
+            if 0 <= k < len(tg):
+                return tg[k]
+            self.raise_exc("IndexError", [Str.lit("no such group")], node, fr)
+        if "concrete_groups" in meta:
+            cg = meta["concrete_groups"]
+            if 0 <= k < len(cg):
+                return NONE if cg[k] is None else Str.lit(cg[k])
+            self.raise_exc("IndexError", [Str.lit("no such group")], node, fr)
+        if "group0" in meta:
+            if k == 0:
+                return meta["group0"]
+            pt = meta.get("pattern_text")
+            if isinstance(pt, str) and isinstance(meta["group0"], Str):
+                # <literal prefix>(group k)<literal suffix>: the group is the whole match without the literals
+                from . import rx as _rx
+                try:
+                    items = _rx.seq_items(_rx.parse(pt))
+                except AnalysisError:
+                    return None
+                gi = [i for i, x in enumerate(items) if isinstance(x, _rx.Group) and x.kind == "cap" and x.index == k]
+                if len(gi) == 1 and not _rx.backrefs(_rx.parse(pt)) and \
+                        all(isinstance(x, _rx.Char) for i, x in enumerate(items) if i != gi[0]):
+                    pre, suf = gi[0], len(items) - gi[0] - 1
+                    return self.bi.slice(meta["group0"], IntV(pre) if pre else NONE, IntV(-suf) if suf else NONE, NONE, node, fr)
+        return None
 
     def call_func(self, func: FuncInfo, args: List[Value], kwargs: Dict[str, Value], self_val: Optional[Value],
                   node: Optional[ast.AST], caller: Optional[Frame], closure: Optional[dict] = None,
@@ -613,6 +648,7 @@ class Interp:
         if gen_mode:
             # a generator is evaluated eagerly: the list of the values it yields, in order
             fr.locals["$yields"] = ListV([])
+        INTERPRETED.add(qn)
         self.run.depth += 1
         if self.run.depth > 150:
             # unbounded recursion of the interpreted program (e.g. over a cyclic structure it built): Python itself
@@ -680,8 +716,9 @@ class Interp:
             return obj
         # dataclass-style construction
         fields: List[Tuple[str, Optional[ast.expr], str]] = []
+        is_nt = "NamedTuple" in cls.all_extern_bases()
         for c in reversed(cls.mro()):
-            if c.is_dataclass:
+            if c.is_dataclass or is_nt:
                 for n, dflt in c.ann_order:
                     fields = [f for f in fields if f[0] != n] + [(n, dflt, c.module)]
         if not fields and (args or kwargs):
@@ -699,10 +736,20 @@ class Interp:
         for k in kwargs:
             if k not in [f[0] for f in fields]:
                 self.raise_exc("TypeError", [Str.lit(f"unexpected field {k} for {cls.name}")], node, fr)
+        if is_nt:
+            obj.nt_order = [f[0] for f in fields]      # type: ignore[attr-defined]  (a typing.NamedTuple: also a tuple of its fields)
+            return obj
         post = cls.find_method("__post_init__")
         if post is not None:
             self.call_func(post, [], {}, obj, node, fr)
         return obj
+
+    @staticmethod
+    def as_tuple(v: Value) -> Value:
+        """a NamedTuple instance seen as the tuple of its fields (indexing, unpacking, iteration, len)"""
+        if isinstance(v, Obj) and getattr(v, "nt_order", None) is not None:
+            return TupleV([v.fields[n] for n in v.nt_order])      # type: ignore[attr-defined]
+        return v
 
     # ------------------------------------------------------------------ attributes
     def get_attr(self, v: Value, name: str, node: Optional[ast.AST], fr: Optional[Frame]) -> Value:
